@@ -14,11 +14,11 @@ build() {
   if [ ! -f $W/build/build.ninja ]; then
     cmake -G Ninja -S $W -B $W/build -DCMAKE_BUILD_TYPE=RelWithDebInfo -Dfmt_DIR=/usr/lib/x86_64-linux-gnu/cmake/fmt -DPIKA_WITH_TESTS=OFF -DPIKA_WITH_EXAMPLES=OFF -DPIKA_WITH_MALLOC=system -DPIKA_WITH_UNITY_BUILD=ON "-DCMAKE_CXX_FLAGS=-Wno-error -g0" >/dev/null 2>&1
   fi
-  ninja -C $W/build -j12 >/dev/null 2>&1
+  nice ninja -C $W/build -j8 >/dev/null 2>&1
 }
 compile_demo() {
   INC=$(for d in $W/libs/pika/*/include $W/build/libs/pika/*/include; do printf -- "-I%s " $d; done)
-  g++ -std=c++20 -O1 -DFMT_SHARED -DSPDLOG_COMPILED_LIB -DSPDLOG_FMT_EXTERNAL -DSPDLOG_SHARED_LIB -D_GNU_SOURCE -DNDEBUG $INC -I$W/build $D/demo.cpp -L$W/build/lib -lpika -lfmt -lspdlog -lhwloc -pthread -Wl,-rpath,$W/build/lib -o $W/demo 2>>$LOG
+  g++ -std=c++20 -O1 -DFMT_SHARED -DSPDLOG_COMPILED_LIB -DSPDLOG_FMT_EXTERNAL -DSPDLOG_SHARED_LIB -D_GNU_SOURCE -DNDEBUG $INC -I$W/build $D/demo.cpp -L$W/build/lib -lpika -lfmt -lspdlog -lhwloc -latomic -pthread -Wl,-rpath,$W/build/lib -o $W/demo 2>>$LOG
 }
 run_demo() { local ok=0 bad=0; for i in 1 2 3; do timeout 300 $W/demo $ARGS >>$LOG 2>&1; if [ $? -eq 0 ]; then ok=$((ok+1)); else bad=$((bad+1)); fi; done; echo "$ok/$bad"; }
 build || { echo "clean build failed" | tee -a $LOG; exit 2; }
